@@ -575,6 +575,8 @@ impl<'a, DB: DatabaseRef> ParallelStateView<'a, DB> {
         } else {
             self.with_metrics(|| self.database.storage_ref(address, index))?
         };
+        #[cfg(feature = "verif-hooks")]
+        crate::verif::rt::pt2("cache_fill_storage", crate::verif::rt::fnv(address.as_slice()), is_storage_known as usize);
         let value = if let Some(slots) = self.cache.storage.get(&address) {
             *slots.entry(index).or_insert(value).value()
         } else {
